@@ -189,6 +189,7 @@ func TestVerif_C20(t *testing.T) {
 			id       int64
 			off, len int64
 			reset    bool
+			pre      string // receive-side state change right before this frame: "closeread", "peerreset"
 		}
 		var script []fr
 		ends := make([]int64, nstreams)
@@ -224,7 +225,14 @@ func TestVerif_C20(t *testing.T) {
 				sum += 900
 			}
 			over := ws - ends[i] + 1 + c.Rng.Int64N(3)
-			script = append(script, fr{id: int64(sid(i)), off: ends[i], len: over})
+			pre := ""
+			if ends[i] > 0 {
+				// the limit still binds a stream whose data is no longer delivered to anyone: the
+				// application has stopped reading it, or the peer has reset it (final size = what
+				// it has sent so far, so the excess also contradicts the final size)
+				pre = []string{"", "closeread", "peerreset"}[c.Rng.IntN(3)]
+			}
+			script = append(script, fr{id: int64(sid(i)), off: ends[i], len: over, pre: pre})
 			if sum+over <= wc && sum > wc {
 				// connection limit was already exceeded on the way: still a flow control error
 			}
@@ -255,7 +263,30 @@ func TestVerif_C20(t *testing.T) {
 				cfg.MaxStreamReadBufferSize = ws
 				cfg.MaxConnReadBufferSize = wc
 			})
+			finalSizeToo := false
 			for _, f := range script {
+				switch f.pre {
+				case "closeread":
+					found := false
+					for {
+						st, err := tc.conn.AcceptStream(canceledContext())
+						if err != nil {
+							break
+						}
+						if st.id == streamID(f.id) {
+							st.CloseRead()
+							found = true
+						}
+					}
+					synctest.Wait()
+					if found { // not found: the connection limit was exceeded on the way and the conn is closing
+						r.Event("overruns_on_read_closed_streams", 1)
+					}
+				case "peerreset":
+					tc.writeFrames(packetType1RTT, debugFrameResetStream{id: streamID(f.id), code: 9, finalSize: f.off})
+					finalSizeToo = true
+					r.Event("overruns_on_streams_reset_by_the_peer", 1)
+				}
 				if f.reset {
 					tc.writeFrames(packetType1RTT, debugFrameResetStream{id: streamID(f.id), code: 7, finalSize: f.off})
 				} else {
@@ -267,6 +298,8 @@ func TestVerif_C20(t *testing.T) {
 			switch {
 			case wantErr && !closed:
 				c.Violation("overrun-not-rejected", "peer exceeded the advertised limit (stream window %d, conn window %d, script %+v) but no CONNECTION_CLOSE was sent; frames: %v", ws, wc, script, frames)
+			case wantErr && finalSizeToo && code == errFinalSize:
+				// the excess frame contradicts the final size as well: either report is right
 			case wantErr && code != expect:
 				c.Violation("overrun-wrong-error-code", "expected FLOW_CONTROL_ERROR, got code %v (%q)", code, reason)
 			case !wantErr && closed:
